@@ -490,8 +490,30 @@ def eval_colon(case):
 # ---------------------------------------------------------------------------
 # encrypted keys (only with AES support)
 # ---------------------------------------------------------------------------
-WALLET_SECRETS = {"1": "first secret", "2": "second secret", "2016-01-01": "dated secret", "a.b_c-d": "odd tag"}
+WALLET_SECRETS = {"1": "first#secret", "2": "second: secret ;x", "2016-01-01": "dated = secret # 3", "a.b_c-d": "odd\ttag'\"%{["}
 WALLET_SETS = (("1",), ("1", "2"), ("2", "1"), ("1", "2016-01-01"), ("a.b_c-d", "1", "2"), ("2",), ("2016-01-01", "a.b_c-d"))
+
+
+WALLET_FORMS = ("dict", "json", "rows", "path")
+
+
+def wallet_source(tags, form, tmpdir):
+    """the same application secrets in each documented way of listing them: mapping, JSON text, 'tag: value' rows, and a
+    file holding either text (secrets_path)"""
+    d = {t: WALLET_SECRETS[t] for t in tags}
+    if form == "dict":
+        return {"secrets": d}
+    if form == "json":
+        return {"secrets": json.dumps(d)}
+    rows = "# application secrets\n\n" + "".join(f"{t}: {v}\n" for t, v in d.items())
+    if form == "rows":
+        return {"secrets": rows}
+    import os
+
+    path = os.path.join(tmpdir, f"secrets-{len(os.listdir(tmpdir))}.txt")
+    with open(path, "w", encoding="utf-8") as fh:
+        fh.write(rows)
+    return {"secrets_path": path}
 
 
 def wallet_default_tag(tags):
@@ -530,15 +552,19 @@ def eval_wallet(case):
     import passlib.totp as T
 
     ensure_aes()
+    import shutil
+    import tempfile
+
     saved = T.rng
     T.rng = random.Random(case["seed"])
+    tmpdir = tempfile.mkdtemp(prefix="c15-wallet-")
     try:
         base = factory("plain")
-        wkw = dict(secrets={t: WALLET_SECRETS[t] for t in case["wtags"]}, encrypt_cost=case["wcost"])
+        wkw = dict(wallet_source(case["wtags"], case.get("wform", "dict"), tmpdir), encrypt_cost=case["wcost"])
         if case.get("wdefault"):
             wkw["default_tag"] = case["wdefault"]
         W = base.using(**wkw)
-        RD = base.using(secrets={t: WALLET_SECRETS[t] for t in case["rtags"]}, encrypt_cost=case["rcost"])
+        RD = base.using(encrypt_cost=case["rcost"], **wallet_source(case["rtags"], case.get("rform", "dict"), tmpdir))
         used_tag = case.get("wdefault") or wallet_default_tag(case["wtags"])
         out = []
         orig = W(case["key"], format="raw", label="lab", digits=case["digits"])
@@ -568,6 +594,7 @@ def eval_wallet(case):
         return out
     finally:
         T.rng = saved
+        shutil.rmtree(tmpdir, ignore_errors=True)
 
 
 EVALS = {"roundtrip": eval_roundtrip, "corrupt": eval_corrupt, "colon": eval_colon, "wallet": eval_wallet}
@@ -688,7 +715,8 @@ def work(task):
     elif part == "wallet":
         for case in task["cases"]:
             acc.ev()
-            acc.cls("wallet", case["format"], case["wtags"], case.get("wdefault"), case["rtags"], case["wcost"], case["rcost"], len(case["key"]))
+            acc.cls("wallet", case["format"], case["wtags"], case.get("wdefault"), case["rtags"], case["wcost"], case["rcost"], len(case["key"]),
+                    case.get("wform", "dict"), case.get("rform", "dict"))
             found = eval_wallet(case)
             for k, d in found:
                 acc.violation(k, d, case)
@@ -711,6 +739,15 @@ def wallet_cases(seed, quick):
                             cases.append({"kind": "wallet", "key": key, "digits": 6 if n != 20 else 8, "wtags": list(wtags),
                                           "wdefault": wdefault, "rtags": list(rtags), "wcost": wcost, "rcost": rcost,
                                           "format": fmt, "seed": seed})
+    # every documented way of listing the secrets (mapping / JSON text / 'tag: value' rows / secrets_path file), on the
+    # writing and on the reading side, with secrets that contain '#', ':', '=', blanks, quotes, '%', brackets
+    key = filler(seed, 20, b"walform")
+    for wform in WALLET_FORMS:
+        for rform in WALLET_FORMS:
+            for tags in WALLET_SETS if not quick else (("1",), ("2", "1"), ("1", "2016-01-01"), ("a.b_c-d", "1", "2")):
+                for fmt in ("json", "dict"):
+                    cases.append({"kind": "wallet", "key": key, "digits": 6, "wtags": list(tags), "wdefault": None, "rtags": list(tags),
+                                  "wcost": 3, "rcost": 3, "format": fmt, "seed": seed, "wform": wform, "rform": rform})
     return cases
 
 
